@@ -44,7 +44,10 @@ MANIFEST = dict(
                 "end-of-stream (C02_wakeup_read), asked-for socket writability delivers a byte or, the socket being shut, drops "
                 "the buffer so that the handler stops asking (C02_wakeup_deliver), and a handler that registers for nothing is "
                 "not connecting, holds nothing for its socket and has stopped reading or waits for a paused tunnel "
-                "(C02_nothing_wanted_nothing_possible). "
+                "(C02_nothing_wanted_nothing_possible); after every callback nothing is left for pre_select to propagate, so a handler whose "
+                "two writers are shut with nothing buffered was marked finished by that very callback and is dropped at the next "
+                "pass of the loop (C02_finished_noticed_in_callback - true only since the repair bcee896 of the defect this "
+                "check found: such a handler used to stay registered until unrelated tunnel traffic). "
                 "The model is replayed against the real classes on every run with close-order scenarios; teardown within "
                 "bounded work and absence of stuck states are checked on the real code by the real-loop drain oracle (real ssnet.runonce "
                 "passes with the environment's actual readiness)."),
@@ -224,7 +227,8 @@ def run(ctx):
                      for n in (3, 40)] +
                     [('failure-%s-%s' % (w_, f_), (lambda w_=w_, f_=f_: tg.failure_tears_down(ctx, rng, 'C02', w_, f_)))
                      for w_ in ('app', 'dst') for f_ in ('recv', 'send')] +
-                    [('closed-app-streaming-dst', lambda: tg.closed_app_streaming_dst(ctx, rng, 'C02'))]):
+                    [('closed-app-streaming-dst', lambda: tg.closed_app_streaming_dst(ctx, rng, 'C02'))] +
+                    [('stop-after-eof-%s' % w_, (lambda w_=w_: tg.stop_after_eof(ctx, rng, 'C02', w_))) for w_ in ('dst', 'app')]):
         ins, outs = fn()
         all_in.append(ins)
         all_out.append(outs)
@@ -264,7 +268,7 @@ def replay(ctx, rep):
             tg.reap_after_reuse(c2, c2.rng, 'C02', maxchan)
         hit = [v for v in c2.violations if v['key'] == rep.get('key')]
         return bool(hit), (str(hit[0]['observed']) if hit else 'the new flow keeps its identifier and its bytes')
-    s, wrote = tg.replay_script(rep['case']['script'])
+    s, wrote = tg.replay_script(rep['case'])
     try:
         class Sc:
             pass
